@@ -306,7 +306,7 @@ pub fn run(ctx: &Ctx) -> i32 {
     cl.excl_wal_steps = cl.excl_flush_steps;
     cl.excl_store_after_restart = false;
     cl.excl_compact_restart = false;
-    let cases = ctx.tier.pick(80, 1200);
+    let cases = ctx.tier.pick(200, 1200);
     if let Some(f) = explore(ctx, "snapshots", || c01::case_strategy(ctx.tier, cl, 2), Explore { cases, max_shrink_iters: ctx.tier.pick(80, 400), lanes: ctx.lanes }, &stats, run_case) {
         report.violations.push(f);
     }
